@@ -11,7 +11,7 @@ ENGINES = [
         "independent reference distribution semantics as z3 terms", "serves_properties": ["C01"]},
     {"name": "E3 tv", "path": "vlib/tv.py", "kind_free_text":
         "SAT translation validation of LogicFormula/LogicDAG/CNF/DDNNF/DIMACS artifacts",
-     "serves_properties": ["C09", "C10"]},
+     "serves_properties": ["C09", "C10", "C11"]},
 ]
 TV = "translation_validation"
 CHECKS = {
@@ -60,4 +60,8 @@ CHECKS["C02"] = dict(engine="E2 refsem (alternating fixpoint in z3) + E1", categ
 CHECKS["C05"] = dict(engine="E1 symsem (diffcheck)", category=TV, technique=RVR + "; semiring variants incl. SemiringSymbolic expression parsed back into z3 terms",
     text="ddnnf vs the default evaluatable choice; probability semiring vs NSP variant, a user-defined probability semiring built on the base-class defaults (and its NSP variant), and SemiringSymbolic whose output expression is parsed back and proved equal for all parameter values. Log-probability is anchored concretely at an interior point.",
     note="NOT covered here: SDD, SDDExplicit, ForwardSDD, ForwardBDD, BDD (PySDD not installed, is_available() False). Log-prob algebra for all values is C12.")
+CHECKS["C11"] = dict(engine="E3 tv (vlib/builder.py)", category=TV,
+    technique="real builder call sequences mirrored by an unsimplified spec graph; least-model encodings of both node tables compared by z3 (SAT) for all atom assignments after every call",
+    text="Every call sequence (bounded-exhaustive: all sequences of <= 2 compound calls over two atoms with every operand choice under 7-11 option vectors, depth 3 in the thorough tier; plus seeded sequences up to length 60 over <= 12 atoms with mutable/cyclic disjunctions, names, groups, deterministic atoms) is run on the real LogicFormula; after each call z3 proves that every key returned so far, and every entry of the name table, denotes the function the calls describe, for all atom assignments.",
+    note="Sequences are enumerated/seeded, not symbolic. Sequences never contain a cycle through negation. Trusted: vlib/tv.py encoder (shared by spec and implementation side), z3.")
 NOT_APPLICABLE = {"C30": "check file exists (props/c30.py) but its triage is unfinished: it reports violations on the unchanged tree that have not been classified, so the property is not claimed"}
